@@ -17,8 +17,8 @@ class Sim:
         n = sum(1 for h in self.handles if h == r)
         for ch in self.chans:
             if not ch["dead"]:
-                for (_, rights) in ch["q"]:
-                    n += sum(1 for x in rights if x == r)
+                for m in ch["q"]:
+                    n += sum(1 for x in m[1] if x == r)
         return n
 
     def gc(self):
@@ -50,7 +50,8 @@ class Sim:
             self.gc()
             return "RDropped"
         elif k == "send":
-            _, h, data, pad, atts = op
+            _, h, data, pad, atts = op[:5]
+            poison = op[5] if len(op) > 5 else ""
             c = self.handles[h][1]
             rights = []
             for (a, x) in atts:
@@ -59,14 +60,19 @@ class Sim:
                     self.handles[x] = ("G",)
             ok = not self.chans[c]["dead"]
             if ok:
-                self.chans[c]["q"].append((data, rights))
+                self.chans[c]["q"].append((data, rights, poison))
             self.gc()
             return "RSent" if ok else "RSendErr"
         elif k == "recv":
             c = self.handles[op[1]][1]
             if self.chans[c]["q"]:
-                data, rights = self.chans[c]["q"].pop(0)
+                data, rights, poison = self.chans[c]["q"].pop(0)
                 n = len(self.handles)
+                if poison:
+                    # decoding fails: the message is consumed, what it carried is released, nothing reaches the program
+                    self.handles += [("G",)] * len(rights)
+                    self.gc()
+                    return "RDecodeErr"
                 self.handles += rights
                 return "RMsg %d [%s]" % (data, "; ".join("(%s, %d)" % ("KTx" if r[0] == "S" else "KRx", n + i) for i, r in enumerate(rights)))
             return "RDisconnected" if self.refs(("S", c)) == 0 else "REmpty"
@@ -80,8 +86,8 @@ class Sim:
             if a in seen:
                 return False
             seen.add(a)
-            for (_, rights) in self.chans[a]["q"]:
-                for r in rights:
+            for m in self.chans[a]["q"]:
+                for r in m[1]:
                     if r[0] == "R" and reach(r[1], b, seen):
                         return True
             return False
@@ -93,7 +99,17 @@ class Sim:
         return True
 
 
-def gen_program(rng, nops, max_chans=6, max_queue=40, p_att=0.5):
+def recv_op(sim, h, variant):
+    """receive op with the hint the harness and the renderer need when the head message cannot be decoded"""
+    c = sim.handles[h][1]
+    q = sim.chans[c]["q"]
+    if q and q[0][2]:
+        data, rights, _ = q[0]
+        return ("recv", h, variant, {"k": len(rights), "data": data, "kinds": ["KTx" if r[0] == "S" else "KRx" for r in rights], "n0": len(sim.handles)})
+    return ("recv", h, variant, None)
+
+
+def gen_program(rng, nops, max_chans=6, max_queue=40, p_att=0.5, p_poison=0.0):
     sim = Sim()
     ops, expect = [], []
     data = 0
@@ -118,7 +134,7 @@ def gen_program(rng, nops, max_chans=6, max_queue=40, p_att=0.5):
         elif k == "drop":
             op = ("drop", rng.choice(tx + rx))
         elif k == "recv":
-            op = ("recv", rng.choice(rx), rng.choice(["recv", "recv", "recvt"]))
+            op = recv_op(sim, rng.choice(rx), rng.choice(["recv", "recv", "recvt"]))
         else:
             h = rng.choice(tx)
             c = sim.handles[h][1]
@@ -136,7 +152,7 @@ def gen_program(rng, nops, max_chans=6, max_queue=40, p_att=0.5):
             if not sim.acyclic_ok(c, atts):
                 continue
             data += 1
-            op = ("send", h, data, rng.choice([0, 0, 0, 10, 500]), atts)
+            op = ("send", h, data, rng.choice([0, 0, 0, 10, 500]), atts, rng.choice("el") if rng.random() < p_poison else "")
         exp = sim.step(("recv", op[1]) if op[0] == "recv" else op)
         ops.append(op)
         expect.append(exp)
@@ -150,9 +166,10 @@ def op_line(op):
     if k in ("clone", "drop"):
         return "%s %d" % (k, op[1])
     if k == "recv":
-        return "%s %d%s" % (op[2], op[1], " 0" if op[2] == "recvt" else "")
-    _, h, data, pad, atts = op
-    return "send %d %d %d %s" % (h, data, pad, ",".join("%s:%d" % a for a in atts) or "-")
+        hint = op[3] if len(op) > 3 else None
+        return "%s %d%s" % (op[2], op[1], " %d" % hint["k"] if hint else "")
+    _, h, data, pad, atts = op[:5]
+    return "send %d %d %d %s%s" % (h, data, pad, ",".join("%s:%d" % a for a in atts) or "-", (" " + op[5]) if len(op) > 5 and op[5] else "")
 
 
 def op_term(op):
@@ -165,7 +182,7 @@ def op_term(op):
         return "ODrop %d" % op[1]
     if k == "recv":
         return "ORecv %d" % op[1]
-    _, h, data, pad, atts = op
+    _, h, data, pad, atts = op[:5]
     return "OSend %d (%d)%%Z [%s]" % (h, data, "; ".join(("ATx %d" if a == "t" else "ARx %d") % x for a, x in atts))
 
 
@@ -278,12 +295,32 @@ HEADER = ("From Coq Require Import ZArith List Bool.\nFrom IPC Require Import K 
 
 
 def render(item, with_trace=True):
-    ops = "[" + "; ".join(op_term(o) for o in item["ops"]) + "]"
-    outs = [out_term(s) for s in item["outs"]]
+    """a receive whose message cannot be decoded is, for the models, the receive followed by dropping every handle it
+    installed (nothing the message carried reaches the program; what it carried is released)"""
+    ops_t, outs, counts = [], [], []
+    for k, o in enumerate(item["ops"]):
+        obs = item["outs"][k] if k < len(item["outs"]) else None
+        cnt = item["counts"][k] if k < len(item["counts"]) else None
+        hint = o[3] if o[0] == "recv" and len(o) > 3 else None
+        if obs == "RDecodeErr":
+            if not hint:
+                return None
+            ops_t.append(op_term(o))
+            outs.append("RMsg (%d)%%Z [%s]" % (hint["data"], "; ".join("(%s, %d)" % (kd, hint["n0"] + j) for j, kd in enumerate(hint["kinds"]))))
+            for j in range(hint["k"]):
+                ops_t.append("ODrop %d" % (hint["n0"] + j))
+                outs.append("RDropped")
+            counts += ["None"] * hint["k"] + ["Some %d" % cnt if cnt is not None else "None"]
+            continue
+        ops_t.append(op_term(o))
+        if obs is not None:
+            outs.append(out_term(obs))
+        if cnt is not None:
+            counts.append("Some %d" % cnt)
     if any(o is None for o in outs):
         return None
     tr = item["ledger"] if (with_trace and item["ledger"] is not None) else None
     term = "let v := check_prog (%s) [%s] [%s] [%s] in (v_unix v, v_ideal v, %s, %s)" % (
-        ops, "; ".join(outs), "; ".join(tr or []), "; ".join(str(c) for c in item["counts"]),
+        "[" + "; ".join(ops_t) + "]", "; ".join(outs), "; ".join(tr or []), "; ".join(counts),
         "v_trace v" if tr is not None else "true", "v_counts v")
     return term
